@@ -226,7 +226,14 @@ type schedRun struct {
 	// mutex: a command changed the log while another one was stopped inside its lock section
 	// (exclusive flock taken on a descriptor that is still open, not yet released)
 	mutex []string
+	// sameLog: a read gave different output although the log's bytes were the same (probed
+	// between controller actions when probeReads is set)
+	sameLog []string
 }
+
+// probeReads makes runSchedule run a read between controller actions and compare it with
+// the same read on the same log bytes earlier in the execution.
+var probeReads bool
 
 // holdsLock says whether a process whose trace is calls holds the exclusive flock right
 // now: its last successful LOCK_EX on a descriptor that was neither unlocked nor closed.
@@ -334,8 +341,26 @@ func (w *World) runSchedule(cmds []ConcCmd, actions []SchedAction) schedRun {
 			}
 		}
 	}
+	seenOut := map[string]string{}
+	probe := func(when string) {
+		if !probeReads || len(sr.sameLog) > 0 {
+			return
+		}
+		for _, args := range [][]string{{"--json", "list", "--all"}, {"list", "--all"}} {
+			r := Run(Cmd{Args: args, Dir: w.Root})
+			key := strings.Join(args, " ") + "|" + string(ReadLog(w.Root))
+			got := fmt.Sprintf("exit %d|%s|%s", r.Code, r.Stdout, r.Stderr)
+			if prev, ok := seenOut[key]; ok && prev != got {
+				sr.sameLog = append(sr.sameLog, fmt.Sprintf("`%s` %s: the log has the same bytes as at an earlier read, the output differs: %s", strings.Join(args, " "), when, clip(diffHint(prev, got), 300)))
+			} else if !ok {
+				seenOut[key] = got
+			}
+		}
+	}
+	probe("before the commands start")
 	for _, a := range actions {
 		i := a.I
+		probe(fmt.Sprintf("before `%s %d`", a.Act, a.I))
 		switch a.Act {
 		case "start":
 			if procs[i] != nil {
